@@ -138,9 +138,15 @@ end
 def resolveFuel : Nat := 12
 
 /-- `filter_for_lineage` on resolved revision ids -/
-def filterForLineage (m : LMap) (targets : List Id) (against : String) (inclDeps : Bool) : Except Err (List Id) := do
-  let shares ← resolveShares m resolveFuel against
-  pure (targets.filter (fun t => sharesLineage m t shares inclDeps))
+def filterForLineage (m : LMap) (targets : List Id) (against : String) (inclDeps : Bool) : Except Err (List Id) :=
+  if targets.isEmpty then do
+    -- `[tg for tg in targets if self._shares_lineage(tg, shares, …)]`: `_resolve_revision_number` runs first,
+    -- but the names in `shares` are resolved inside `_shares_lineage`, i.e. only when there is a target
+    let _ ← resolveRevisionNumber m (resolveFuel - 1) against
+    pure []
+  else do
+    let shares ← resolveShares m resolveFuel against
+    pure (targets.filter (fun t => sharesLineage m t shares inclDeps))
 
 /-- one step; `cur = none` is base. Result `none` = ran off the tree. `"base"` as a separate
     value is folded into `none` (walking down from base gives no children). -/
